@@ -434,26 +434,33 @@ func runC02Round6(c *Ctx) {
 			for _, w := range waits {
 				waitIns = append(waitIns, w.(ssa.Instruction))
 			}
-			found := tooLargeRefusal(fn, T, sizeField[T], waitIns)
-			if !found {
-				// the test may live in the callers (Offer tests, then calls add): every static caller must have it before the call
+			// the test may live in the function itself or further up: every static caller chain (helper → add → Offer)
+			// must pass it before the call
+			var refused func(g *ssa.Function, before []ssa.Instruction, depth int) bool
+			refused = func(g *ssa.Function, before []ssa.Instruction, depth int) bool {
+				if tooLargeRefusal(g, T, sizeField[T], before) {
+					return true
+				}
+				if depth >= 3 {
+					return false
+				}
 				callers := 0
-				all := true
-				for _, g := range funcs {
+				for _, h := range funcs {
 					var sites []ssa.Instruction
-					for _, ci := range calls(g, func(ci ssa.CallInstruction) bool { return originFn(staticCalleeFn(ci)) == originFn(fn) }) {
+					for _, ci := range calls(h, func(ci ssa.CallInstruction) bool { return originFn(staticCalleeFn(ci)) == originFn(g) }) {
 						sites = append(sites, ci.(ssa.Instruction))
 					}
 					if len(sites) == 0 {
 						continue
 					}
 					callers++
-					if !tooLargeRefusal(g, T, sizeField[T], sites) {
-						all = false
+					if !refused(h, sites, depth+1) {
+						return false
 					}
 				}
-				found = callers > 0 && all
+				return callers > 0
 			}
+			found := refused(fn, waitIns, 0)
 			c.Check(found, "enqueue function "+fnName(fn)+" refuses a request larger than the capacity before it waits", p.Pos(fn.Pos()), "size > capacity ⇒ error, evaluated before the wait", "no test of the request's size against the capacity alone: capacity 10, block_on_overflow, a request of size 11 offered to the EMPTY queue blocks until its context ends; two such producers take every wake-up and a producer of size 1 behind them starves on an empty queue")
 		}
 	}
@@ -762,12 +769,9 @@ func runC05StopBeforeAttempt(c *Ctx) {
 			}
 			timer, fieldCh := false, ""
 			for _, st := range sel.States {
-				for v := range backSlice(st.Chan) {
-					if cl, ok := v.(*ssa.Call); ok {
-						if f := calleeOf(cl); f != nil && f.FullName() == "time.After" {
-							timer = true
-						}
-					}
+				// a timer case: the channel carries time.Time values (time.After, a Timer's or Ticker's C)
+				if ch, ok := st.Chan.Type().Underlying().(*types.Chan); ok && typeIs(ch.Elem(), "time", "Time") {
+					timer = true
 				}
 				if u, ok := st.Chan.(*ssa.UnOp); ok {
 					if fa, ok := u.X.(*ssa.FieldAddr); ok && len(fn.Params) > 0 && sameValue(strip(fa.X), fn.Params[0]) {
